@@ -75,6 +75,58 @@ class Source:
         return [ast.unparse(d) for d in self.get(qual).decorator_list]
 
 
+class SourceSet(Source):
+    """several source files read as one (a class hierarchy that spans files): the definitions of all of them by
+    qualified name, plus the base classes of every class, so that an inherited method is found where Python finds it"""
+
+    def __init__(self, paths):
+        self.path = paths[0]
+        self.paths = list(paths)
+        self.defs, self.bases, self.where = {}, {}, {}
+        for p in paths:
+            s = Source(p)
+            for q, d in s.defs.items():
+                if q in self.defs:
+                    raise Unsupported(f'`{q}` is defined in {os.path.basename(self.where[q])} and {os.path.basename(p)}')
+                self.defs[q], self.where[q] = d, p
+            for n in s.tree.body:
+                if isinstance(n, ast.ClassDef):
+                    if n.name in self.bases:
+                        raise Unsupported(f'class `{n.name}` is defined twice')
+                    self.bases[n.name] = [b.id if isinstance(b, ast.Name) else ast.unparse(b) for b in n.bases]
+
+    def mro(self, cls):
+        """C3 linearisation over the classes of these files (bases defined elsewhere — ABC, Protocol — hold no method of
+        interest and are left out)"""
+        if cls not in self.bases:
+            raise Unsupported(f'class `{cls}` not found')
+        parents = [b for b in self.bases[cls] if b in self.bases]
+        seqs = [self.mro(b) for b in parents] + [list(parents)]
+        out = [cls]
+        while any(seqs):
+            seqs = [s for s in seqs if s]
+            for s in seqs:
+                head = s[0]
+                if not any(head in t[1:] for t in seqs):
+                    break
+            else:
+                raise Unsupported(f'no consistent method resolution order for `{cls}`')
+            out.append(head)
+            seqs = [[x for x in s if x != head] for s in seqs]
+        return out
+
+    def resolve(self, cls, attr, after=None):
+        """qualified name of the definition `cls().attr` reaches (`after`: the search starts behind that class, as
+        `super()` inside a method of `after` does); None when no class of the set defines it"""
+        order = self.mro(cls)
+        if after is not None:
+            order = order[order.index(after) + 1:] if after in order else []
+        for c in order:
+            if f'{c}.{attr}' in self.defs:
+                return f'{c}.{attr}'
+        return None
+
+
 # ----------------------------------------------------------------------------------------------------------
 # instances
 
@@ -173,7 +225,12 @@ class Unit:
     def class_of(self, typ):
         return self.classes.get(typ)
 
-    def find(self, qual, argtypes):
+    def find(self, qual, argtypes, recv=None):
+        if recv is not None:
+            # several classes inherit one definition: the instance declared for this receiver type, if there is one
+            for j in self.insts:
+                if j.key() == (qual, tuple(argtypes)) and j.params and j.params[0] == ('self', recv):
+                    return j
         i = self.by_key.get((qual, tuple(argtypes))) or self.externals.get((qual, tuple(argtypes)))
         if i is None:
             raise Unsupported(f'no instance declared for `{qual}` at argument types {tuple(argtypes)}')
@@ -834,6 +891,8 @@ class FnTr:
                 return Val(f'({e.value} : Int)', 'Int')
             if isinstance(e.value, float) and e.value == int(e.value) and 'float_as_int' in self.u.hooks:
                 return Val(f'({int(e.value)} : Int)', 'Int')      # 1.0, 2.0 next to the numeric class: the same number
+            if isinstance(e.value, str) and 'strings' in self.u.hooks:
+                return Val(_lean_str(e.value), 'Str')
             raise Unsupported(f'constant {e.value!r}')
         if isinstance(e, ast.Attribute):
             return self.attribute(e)
@@ -919,10 +978,14 @@ class FnTr:
                     return Val(f'({a.text} / {b.text})', 'N')
                 return Val(f'(GV.Sphere.pymod {a.text} {b.text})', 'N')      # Python's float `%`
             raise Unsupported(f'`{ast.unparse(e)[:60]}`: {a.typ} {type(e.op).__name__} {b.typ}')
+        if isinstance(e, ast.JoinedStr):
+            return self.fstring(e)
         if isinstance(e, ast.BinOp) and isinstance(e.op, (ast.Add, ast.Sub, ast.Mult)):
             a, b = self.expr(e.left), self.expr(e.right)
             a, b = self.unify_num(a, b)
             sym = {ast.Add: '+', ast.Sub: '-', ast.Mult: '*'}[type(e.op)]
+            if sym == '+' and a.typ == b.typ == 'Str':
+                return Val(f'({a.text} ++ {b.text})', 'Str')
             if a.typ == b.typ == 'N' or a.typ == b.typ == 'R' or (a.typ == b.typ == 'Int' and sym == '*'):
                 return Val(f'({a.text} {sym} {b.text})', a.typ)
             if sym == '+' and a.typ == b.typ and a.typ.startswith('List '):
@@ -974,6 +1037,9 @@ class FnTr:
                 if isinstance(sl, ast.Slice) and sl.upper is None and sl.step is None and isinstance(sl.lower, ast.Constant) \
                         and isinstance(sl.lower.value, int) and sl.lower.value >= 0:
                     return Val(f'(({v.text}).drop {sl.lower.value})', v.typ)
+                if isinstance(sl, ast.Slice) and sl.lower is None and sl.upper is None and isinstance(sl.step, ast.UnaryOp) \
+                        and isinstance(sl.step.op, ast.USub) and isinstance(sl.step.operand, ast.Constant) and sl.step.operand.value == 1:
+                    return Val(f'(({v.text}).reverse)', v.typ)        # xs[::-1]
                 if isinstance(sl, ast.Constant) and isinstance(sl.value, int) and sl.value >= 0:
                     r = Val(f'(GV.Py.getIdx {_paren(v.text)} {sl.value})', v.typ[5:])
                     r.raises = True                      # IndexError when the list is too short
@@ -998,6 +1064,10 @@ class FnTr:
             tmpl, typ = spec
             return Val(tmpl.format(base.text), typ, path=(f'{base.path}.{e.attr}' if base.path else None))
         cls = self.u.class_of(base.typ)
+        if cls and 'resolve' in self.u.hooks:
+            q = self.u.hooks['resolve'](cls, e.attr)
+            if q and self.u.src.is_property(q):
+                return self.apply(self.u.find(q, (), recv=base.typ), [base])
         if cls and (self.u.src.is_property(f'{cls}.{e.attr}') or (f'{cls}.{e.attr}', ()) in self.u.externals):
             inst = self.u.find(f'{cls}.{e.attr}', ())
             return self.apply(inst, [base])
@@ -1015,6 +1085,8 @@ class FnTr:
 
     def compare2(self, a, op, b):
         num = ('Dt', 'Td', 'Int')
+        if isinstance(op, (ast.Is, ast.IsNot)) and b.typ == 'None' and a.typ.startswith('Opt '):
+            return Val(f'({a.text}).{"isNone" if isinstance(op, ast.Is) else "isSome"}', 'Bool')      # `x is None` as a value
         if isinstance(op, (ast.In, ast.NotIn)) and b.typ == 'Props' and a.typ == 'Str':
             r = Val(f'((GV.Coll.assocGet {b.text} {a.text}).isSome)', 'Bool')
             return r if isinstance(op, ast.In) else Val(f'(!{r.text})', 'Bool')
@@ -1132,6 +1204,12 @@ class FnTr:
                 raise Unsupported(f'float() of {v.typ}')
             if f.id == 'hash' and len(e.args) == 1:
                 return self.expr(e.args[0])           # the value handed to hash()
+            if f.id in ('list', 'tuple', 'reversed') and len(e.args) == 1 and not e.keywords and 'sequences' in self.u.hooks:
+                # every finite sequence (list, tuple, the iterator of `reversed`) is the list of its elements
+                v = self.expr(e.args[0])
+                if not v.typ.startswith('List '):
+                    raise Unsupported(f'{f.id}() of {v.typ}')
+                return Val(f'(({v.text}).reverse)', v.typ) if f.id == 'reversed' else Val(v.text, v.typ, path=v.path)
             if f.id == 'set' and not e.args:
                 return Val('[]', 'Set ?')
             if f.id in ('any', 'all') and len(e.args) == 1 and isinstance(e.args[0], ast.GeneratorExp):
@@ -1161,10 +1239,17 @@ class FnTr:
         if isinstance(f, ast.Attribute) and isinstance(f.value, ast.Name) and f.value.id not in self.env \
                 and f'{f.value.id}.{f.attr}' in self.u.intrinsics:
             return self.u.intrinsics[f'{f.value.id}.{f.attr}'](self, [self.expr(a) for a in e.args])
+        if isinstance(f, ast.Attribute) and isinstance(f.value, ast.Call) and isinstance(f.value.func, ast.Name) \
+                and f.value.func.id == 'super' and not f.value.args and 'super_method' in self.u.hooks:
+            return self.u.hooks['super_method'](self, f.attr, e.args)
         if isinstance(f, ast.Attribute):
             recv = self.expr(f.value)
+            if recv.typ == 'Str':
+                return self.str_method(recv, f.attr, e.args)
             cls = self.u.class_of(recv.typ)
             qual = f'{cls}.{f.attr}' if cls else None
+            if qual and 'resolve' in self.u.hooks:
+                qual = self.u.hooks['resolve'](cls, f.attr) or qual       # the class of the hierarchy that defines it
             if qual and qual in self.u.intrinsics:
                 return self.u.intrinsics[qual](self, [recv] + [self.expr(a) for a in e.args])
             hook = self.u.hooks.get('method')
@@ -1178,7 +1263,8 @@ class FnTr:
                 tmpl, typ = ab
                 return Val('(' + tmpl.format(*[_paren(x.text) for x in [recv] + args]) + ')', typ)
             if qual and (qual in self.u.src.defs or any(k[0] == qual for k in self.u.externals)):
-                inst = self.u.find(qual, tuple(a.typ for a in args))
+                inst = self.u.find(qual, tuple(a.typ for a in args), recv=recv.typ) if 'resolve' in self.u.hooks else \
+                    self.u.find(qual, tuple(a.typ for a in args))
                 is_method = bool(inst.params) and inst.params[0][0] == 'self'      # a staticmethod takes no receiver
                 return self.apply(inst, ([recv] if is_method else []) + args)
             raise Unsupported(f'`{self.inst.qual}`: method `.{f.attr}` of {recv.typ} at {tuple(a.typ for a in args)}')
@@ -1201,6 +1287,8 @@ class FnTr:
             if xss.typ.startswith('List List '):
                 return Val(f'(({xss.text}).flatten)', xss.typ[5:])
             raise Unsupported(f'flattening of {xss.typ}')
+        if len(g) == 1 and not g[0].ifs and isinstance(g[0].target, ast.Name):
+            return self.map_comp(e)               # `[f(x) for x in xs]`
         if len(e.generators) != 1 or not isinstance(e.generators[0].target, ast.Name) or len(e.generators[0].ifs) != 1 \
                 or not (isinstance(e.elt, ast.Name) and e.elt.id == e.generators[0].target.id):
             raise Unsupported(f'`{self.inst.qual}`: comprehension other than `[x for x in xs if c]`')
@@ -1228,6 +1316,51 @@ class FnTr:
             # the instance may raise but this test can not: undo the `.ok` wrapping of the branch leaves
             body = body.replace('Except.ok true', 'true').replace('Except.ok false', 'false')
         return Val(f'(({xs.text}).filter (fun {x} =>\n{_indent(body, 4)}))', xs.typ)
+
+    def map_comp(self, e):
+        """`[f(x) for x in xs]` / `(f(x) for x in xs)` -> `xs.map (fun x => f x)` (an element that may raise is refused)"""
+        g = e.generators[0]
+        xs = self.expr(g.iter)
+        if not xs.typ.startswith('List '):
+            raise Unsupported(f'comprehension over {xs.typ}')
+        x = self.gensym(lname(g.target.id))
+        inner = self.sub()
+        inner.fresh = self.fresh
+        inner.env[g.target.id] = Val(x, xs.typ[5:], path=g.target.id)
+        inner.narrow.pop(g.target.id, None)
+        v = inner.expr(e.elt)
+        if inner.pending:
+            raise Unsupported(f'`{self.inst.qual}`: a call that may raise inside `{ast.unparse(e)[:60]}`')
+        self.fresh = inner.fresh
+        if v.text == x:
+            return Val(xs.text, xs.typ)
+        return Val(f'(({xs.text}).map (fun {x} => {v.text}))', 'List ' + v.typ)
+
+    def fstring(self, e):
+        """an f-string whose fields are strings (no conversion, no format spec): the concatenation of its parts"""
+        parts = []
+        for p in e.values:
+            if isinstance(p, ast.Constant) and isinstance(p.value, str):
+                parts.append(_lean_str(p.value))
+            elif isinstance(p, ast.FormattedValue) and p.conversion == -1 and p.format_spec is None:
+                v = self.expr(p.value)
+                if v.typ != 'Str':
+                    raise Unsupported(f'f-string field `{ast.unparse(p.value)[:60]}` of type {v.typ}')
+                parts.append(v.text)
+            else:
+                raise Unsupported(f'f-string part `{ast.unparse(p)[:60]}`')
+        return Val('(' + ' ++ '.join(parts or ['""']) + ')', 'Str')
+
+    def str_method(self, recv, attr, args):
+        """`sep.join(xs)` over a list / generator of strings"""
+        if attr == 'join' and len(args) == 1:
+            a = args[0]
+            xs = self.map_comp(a) if isinstance(a, ast.GeneratorExp) and len(a.generators) == 1 and not a.generators[0].ifs \
+                and isinstance(a.generators[0].target, ast.Name) else self.expr(a)
+            if xs.typ != 'List Str':
+                raise Unsupported(f'join over {xs.typ}')
+            return Val(f'(String.intercalate {_paren(recv.text)} {_paren(xs.text)})', 'Str')
+        raise Unsupported(f'`{self.inst.qual}`: string method `.{attr}`')
 
     def any_all(self, which, g):
         tgt = g.generators[0].target if len(g.generators) == 1 else None
@@ -1289,3 +1422,20 @@ def _path(e):
 
 def _indent(s, n=2):
     return textwrap.indent(s, ' ' * n)
+
+
+def _lean_str(s):
+    """a Lean string literal"""
+    out = []
+    for ch in s:
+        if ch in ('"', '\\'):
+            out.append('\\' + ch)
+        elif ch == '\n':
+            out.append('\\n')
+        elif ch == '\t':
+            out.append('\\t')
+        elif 32 <= ord(ch) < 127:
+            out.append(ch)
+        else:
+            out.append('\\u{%x}' % ord(ch))
+    return '"' + ''.join(out) + '"'
